@@ -793,10 +793,17 @@ func (fc *FC) IfsMentioning(atomName string) []*ssa.If {
 	var out []*ssa.If
 	fc.Ctx.Instrs(func(in ssa.Instruction) {
 		if ifi, ok := in.(*ssa.If); ok {
-			for _, a := range fc.Val(ifi.Cond).Atoms(true) {
-				if a.Name == atomName {
-					out = append(out, ifi)
-					return
+			c := fc.Val(ifi.Cond).SingleAtom()
+			if c == nil {
+				return
+			}
+			// shallow: the comparison's own operands, not values gated by it elsewhere
+			for _, side := range c.Args {
+				for _, a := range side.Atoms(false) {
+					if a.Name == atomName {
+						out = append(out, ifi)
+						return
+					}
 				}
 			}
 		}
